@@ -1,8 +1,11 @@
 from lib import flow, vlib
 
 ASSUME = [
-    "level fault_enumeration: TLC enumerates the create variant (which credential fields are set), the API sequence and "
-    "the fault position of every step; the ORACLE is a substring scan for unique canary values (raw, and base64 at any "
+    "level fault_enumeration: TLC enumerates the create variant (which credential fields are set), the spelling of the "
+    "request's keys (lower case / credential keys capitalised / upper case / alternating case incl. the enclosing "
+    "connect-param and sasl keys; the JSON body goes through the production /cdc handler and mapstructure accepts all of "
+    "them), the API sequence and the fault position of every step (k-th store call, or every store call of the step; "
+    "for get / list / position that is the store READ); the ORACLE is a substring scan for unique canary values (raw, and base64 at any "
     "alignment) over the HTTP answers and over everything the process wrote to fd 1 / fd 2 during the step at log level "
     "debug; the file sink /tmp/cdc_log/cdc.log is fed by the same zap core and is not scanned separately; other "
     "encodings of a secret (hashes, hex, ...) would not be seen",
@@ -22,10 +25,14 @@ C = dict(
     prop="C18", driver="secrets", level="fault_enumeration",
     model_checks=[dict(module="Secrets", cfg="Secrets_MC.cfg", workers=4)],
     plan_sources=[
-        dict(name="create", module="Secrets", cfg="Secrets_PlanCreate.cfg", cap={"quick": 110}, workers=4),
-        dict(name="seq3", module="Secrets", cfg="Secrets_PlanSeq3.cfg", cap={"quick": 350}, workers=4),
+        # accepted create in every kind x spelling, then get / list / position with every store read fault: never capped
+        dict(name="read", module="Secrets", cfg="Secrets_PlanRead.cfg", workers=4),
+        dict(name="create", module="Secrets", cfg="Secrets_PlanCreate.cfg", cap={"quick": 240}, workers=4),
+        dict(name="seq3", module="Secrets", cfg="Secrets_PlanSeq3.cfg", cap={"quick": 500}, workers=4),
         dict(name="seq4", module="Secrets", cfg="Secrets_PlanSeq4.cfg", cap={"thorough": 12000}, workers=4, tiers=["thorough"]),
     ],
+    # every accepted or probed Kafka create leaks a librdkafka producer: a fresh driver process every 400 plans
+    driver_parallel=3, driver_chunk=400,
     directed="plans/C18.jsonl",
     trace=("Secrets_Trace", "Secrets_Trace.cfg"),
     death="violation",
@@ -43,4 +50,11 @@ def run(tier, replay=None):
         if not r.violated:
             raise vlib.Inconclusive("Secrets_AsBuilt.cfg no longer violates the contract: the deviation switches are vacuous")
         vlib.log("[tlc] Secrets/Secrets_AsBuilt.cfg: violates %s as expected (models the code as built)" % sorted(set(r.violated)))
+        # negative controls: defect classes the code does not have; each must violate its clause of the contract
+        for cfg, inv, what in (("Secrets_RawKeyMask.cfg", "NoLogLeak", "request log masked by exact comparison of the raw keys"),
+                               ("Secrets_ReadFallback.cfg", "NoRespLeak", "get / list answered from an unmasked copy when the store read fails")):
+            r = vlib.run_tlc("Secrets", cfg, workers=4, timeout=300)
+            if inv not in r.violated:
+                raise vlib.Inconclusive("%s no longer violates %s: the switch is vacuous" % (cfg, inv))
+            vlib.log("[tlc] Secrets/%s: violates %s as expected (negative control: %s)" % (cfg, inv, what))
     return flow.standard_flow(C, tier, replay)
